@@ -265,6 +265,42 @@ template <class T> static void ofV4Pairs ()
 template <class T, class M> static M identityOf () { return M (); }
 template <class T, class M> static bool isIdentity (const M& m) { return m == M (); }
 
+template <class T, class M, int N> static bool isAffineM (const M& m)
+{
+    if (N <= 2) return false;
+    for (int a = 0; a < N - 1; ++a) if (!(m[a][N - 1] == T (0))) return false;
+    return m[N - 1][N - 1] == T (1);
+}
+// exact determinant of a matrix whose entries are integers of magnitude <= 8 (false otherwise)
+template <class T, class M, int N> static bool intDet (const M& m, long long& det)
+{
+    long long a[4][4];
+    for (int i = 0; i < N; ++i) for (int j = 0; j < N; ++j)
+    {
+        T x = m[i][j];
+        if (!(x == std::floor (x)) || !(std::abs (x) <= T (8))) return false;
+        a[i][j] = (long long) x;
+    }
+    auto d2 = [&] (int r0, int r1, int c0, int c1) { return a[r0][c0] * a[r1][c1] - a[r0][c1] * a[r1][c0]; };
+    auto d3 = [&] (int r0, int r1, int r2, int c0, int c1, int c2) {
+        return a[r0][c0] * d2 (r1, r2, c1, c2) - a[r0][c1] * d2 (r1, r2, c0, c2) + a[r0][c2] * d2 (r1, r2, c0, c1); };
+    if (N == 2) det = d2 (0, 1, 0, 1);
+    else if (N == 3) det = d3 (0, 1, 2, 0, 1, 2);
+    else det = a[0][0] * d3 (1, 2, 3, 1, 2, 3) - a[0][1] * d3 (1, 2, 3, 0, 2, 3) + a[0][2] * d3 (1, 2, 3, 0, 1, 3) - a[0][3] * d3 (1, 2, 3, 0, 1, 2);
+    return true;
+}
+// harness self-check against the exact integer determinant: the cofactor paths (2x2, 3x3, affine 4x4) compute the determinant of a
+// small-integer matrix exactly, so they throw iff it is 0; Gauss-Jordan with partial pivoting cannot lose a pivot >= 1/3072 to rounding
+// (must return when det != 0; a singular matrix may go numerically undetected: counted, not required)
+template <class T> static void intDetCheck (const std::string& pair, bool cofactorPath, bool known, long long det, int kind, const std::vector<T>& in, const char* cls)
+{
+    if (!known) return;
+    bool bad = cofactorPath ? ((kind != 0) != (det == 0)) : (det != 0 && kind != 0);
+    if (bad)
+        failLine (pair, TN<T>::n (), det == 0 ? "the exact integer determinant is 0 but the checked member returned" : "the exact integer determinant is not 0 but the checked member threw",
+                  hexOf (in), "throw-vs-exact-integer-determinant", cls);
+}
+
 template <class T, class M, int N> static M matInput (const char*& cls)
 {
     typedef std::numeric_limits<T> L;
@@ -297,8 +333,8 @@ template <class T, class M, int N> static M matInput (const char*& cls)
         }
         case 2: // singular, integers: a duplicated or zero row
             for (int a = 0; a < N; ++a) for (int b = 0; b < N; ++b) m[a][b] = (T) ri (-3, 3);
-            { int r0 = ri (0, N - 1), r1 = ri (0, N - 1); for (int b = 0; b < N; ++b) m[r0][b] = (r0 == r1) ? T (0) : m[r1][b] * T (ri (1, 2)); }
-            cls = "singular";
+            { int r0 = ri (0, N - 1), r1 = ri (0, N - 1); T fac = T (ri (1, 2)); for (int b = 0; b < N; ++b) m[r0][b] = (r0 == r1) ? T (0) : m[r1][b] * fac; }
+            cls = "dup-or-zero-row";
             break;
         case 3: // near singular: singular + one ulp-sized perturbation
             for (int a = 0; a < N; ++a) for (int b = 0; b < N; ++b) m[a][b] = (T) ri (-3, 3);
@@ -334,6 +370,14 @@ template <class T, class M, int N> static M matInput (const char*& cls)
     }
     // half of the time force the affine fast path (last column 0,...,0,1), else make sure it is not taken by accident only sometimes
     if (N > 2 && rng () % 2 == 0) { for (int a = 0; a < N - 1; ++a) m[a][N - 1] = T (0); m[N - 1][N - 1] = T (1); }
+    // The class names what the matrix IS, after every modification: generator family, whether the affine fast path is taken,
+    // and for small-integer matrices (|entry| <= 8) whether the EXACT determinant is zero.
+    static std::string label;
+    label = cls;
+    if (isAffineM<T, M, N> (m)) label += ",affine";
+    long long d;
+    if (intDet<T, M, N> (m, d)) label += d == 0 ? ",int:det=0" : ",int:det!=0";
+    cls = label.c_str ();
     return m;
 }
 
@@ -410,6 +454,11 @@ template <class T, class M, int N> static void inversePairs (const char* mn)
                       o > 0 ? "|det| < 1 and a cofactor >= |det| / min () (long double), but inverse (true) returned"
                             : "|det| >= 1 or every cofactor < |det| / min () (long double), but inverse (true) threw", hexOf (in), "throw-vs-oracle", cls);
     }
+    {
+        long long d = 0;
+        bool known = intDet<T, M, N> (m, d);
+        intDetCheck<T> (p + "inverse(true)/inverse()", N <= 3 || isAffineM<T, M, N> (m), known, d, cT.kind, in, cls);
+    }
     Res<T> id; putM (id, M ());
     // "reports failure" = the identity is returned for a matrix that is not the identity (exact for 2x2 / 3x3 by theorem M22/M33_inverse_failure)
     const bool notId = !(m == M ());
@@ -425,6 +474,36 @@ template <class T, class M, int N> static void inversePairs (const char* mn)
     if (!sameBits (iu, uu)) failLine (p + "invert()/inverse()", TN<T>::n (), "in-place form differs from the value form", hexOf (in), "inplace-vs-value", cls);
 }
 template <class T, class M, int N> static void gjPairsOn (const char* mn, const M& m0, const char* cls);
+// Magnitude-discriminating family for the pivot search (audit r2 S1): for every stage c the leading c x c block is the identity (the
+// earlier stages are trivial), the trailing block is one of three generic integer matrices with entries from {1,...,7} (divisions by
+// 3, 5, 7 are inexact, so a different pivot ORDER changes the rounded result), and column c of the trailing block runs through ALL
+// patterns over {0, +-1, +-2, +-3} (not all zero): every comparison outcome less / equal / greater with every sign combination at the stage.
+template <class T, class M, int N> static void gjMagnitudeLattice (const char* mn)
+{
+    static const int base[3][4][4] = {{{3, 1, 2, 5}, {1, 7, 3, 2}, {2, 3, 5, 1}, {5, 2, 1, 7}},
+                                      {{2, 5, 1, 3}, {7, 1, 2, 5}, {1, 2, 7, 3}, {3, 7, 5, 1}},
+                                      {{5, 3, 7, 1}, {2, 1, 5, 7}, {3, 5, 1, 2}, {1, 2, 3, 5}}};
+    static const int vals[7] = {0, 1, -1, 2, -2, 3, -3};
+    char cls[96];
+    for (int b = 0; b < 3; ++b)
+        for (int c = 0; c < N - 1; ++c)
+        {
+            snprintf (cls, sizeof cls, "lattice:pivot-magnitudes{0,+-1,+-2,+-3}(all-patterns-in-the-stage-%d-column)", c);
+            int  rows = N - c;
+            long total = 1;
+            for (int q = 0; q < rows; ++q) total *= 7;
+            for (long code = 1; code < total; ++code)
+            {
+                M m;
+                for (int i = c; i < N; ++i) for (int j = c; j < N; ++j) m[i][j] = (T) base[b][i - c][j - c];
+                long cc = code;
+                bool allz = true;
+                for (int i = c; i < N; ++i) { int v = vals[cc % 7]; cc /= 7; m[i][c] = (T) v; allz = allz && v == 0; }
+                if (allz) continue;
+                gjPairsOn<T, M, N> (mn, m, cls);
+            }
+        }
+}
 template <class T, class M, int N> static void gjPairs (const char* mn)
 {
     const char* cls;
@@ -470,6 +549,65 @@ template <class T> static void gjLattice ()
         for (int want = 0; want <= 6; ++want) rec (0, 0, want);
     }
 }
+// Replay of the Gauss-Jordan statements in the element type (same operand order as ImathMatrix.h), used ONLY to say which
+// (stage, candidate row, comparison outcome, signs) the lattice inputs reached in the pivot search and which exit was taken: the
+// realistic slips in ONE of the four copies (`>` / `>=`, a missing abs, a wrong row range) change the result only on such inputs.
+// The replay is cross-checked against the real gjInverse () bit for bit (key self:gj-replay), so the labels cannot drift.
+template <class T, class M, int N> static bool gjReplay (const M& m0, M& s, std::map<std::string, long>& reach)
+{
+    M t (m0);
+    s = M ();
+    char key[96];
+    auto hit = [&] (const char* fmt, int a, int b) { snprintf (key, sizeof key, fmt, a, b); ++reach[key]; };
+    for (int i = 0; i < N - 1; i++)
+    {
+        int pivot = i;
+        T   pivotsize = t[i][i];
+        bool curNeg = pivotsize < 0;
+        if (curNeg) { pivotsize = -pivotsize; hit ("stage%d:diagonal-negative", i, 0); }
+        for (int j = i + 1; j < N; j++)
+        {
+            T tmp = t[j][i];
+            bool neg = tmp < 0;
+            if (neg) tmp = -tmp;
+            if (tmp > pivotsize)
+            {
+                hit ("stage%d:row%d:greater", i, j);
+                if (neg) hit ("stage%d:row%d:greater,candidate-negative", i, j);
+                if (curNeg) hit ("stage%d:row%d:greater,current-negative", i, j);
+                pivot = j; pivotsize = tmp; curNeg = neg;
+            }
+            else if (tmp == pivotsize) { hit ("stage%d:row%d:equal", i, j); if (tmp != 0) hit ("stage%d:row%d:equal,non-zero", i, j);
+                                         if (tmp != 0 && neg != curNeg) hit ("stage%d:row%d:equal,opposite-signs", i, j); }
+            else { hit ("stage%d:row%d:less", i, j); if (neg) hit ("stage%d:row%d:less,candidate-negative", i, j); }
+        }
+        if (pivotsize == 0) { hit ("stage%d:zero-pivot-exit", i, 0); return false; }
+        if (pivot != i)
+        {
+            hit ("stage%d:swap-with-row%d", i, pivot);
+            for (int j = 0; j < N; j++) { T tmp = t[i][j]; t[i][j] = t[pivot][j]; t[pivot][j] = tmp; tmp = s[i][j]; s[i][j] = s[pivot][j]; s[pivot][j] = tmp; }
+        }
+        for (int j = i + 1; j < N; j++)
+        {
+            T f = t[j][i] / t[i][i];
+            for (int k = 0; k < N; k++) { t[j][k] -= f * t[i][k]; s[j][k] -= f * s[i][k]; }
+        }
+    }
+    for (int i = N - 1; i >= 0; --i)
+    {
+        T f;
+        if ((f = t[i][i]) == 0) { hit ("backward%d:zero-diagonal-exit", i, 0); return false; }
+        for (int j = 0; j < N; j++) { t[i][j] /= f; s[i][j] /= f; }
+        for (int j = 0; j < i; j++)
+        {
+            f = t[j][i];
+            for (int k = 0; k < N; k++) { t[j][k] -= f * t[i][k]; s[j][k] -= f * s[i][k]; }
+        }
+    }
+    ++reach["returned"];
+    return true;
+}
+
 template <class T, class M, int N> static void gjPairsOn (const char* mn, const M& m0, const char* cls)
 {
     M           m = m0;
@@ -479,6 +617,25 @@ template <class T, class M, int N> static void gjPairsOn (const char* mn, const 
     auto u  = run<T> ([&] (Res<T>& r) { putM (r, m.gjInverse ()); });
     auto cT = run<T> ([&] (Res<T>& r) { putM (r, m.gjInverse (true)); });
     auto cF = run<T> ([&] (Res<T>& r) { putM (r, m.gjInverse (false)); });
+    if (cls && strncmp (cls, "lattice", 7) == 0)
+    {
+        // which pivot-search decisions the lattices reach (per dimension; float and double together)
+        Stat& sr = stats[p + "gjInverse()/replay(pivot-search-reach-of-the-lattices)"];
+        ++sr.evals;
+        M    rs;
+        bool ok = gjReplay<T, M, N> (m, rs, sr.cls);
+        if (ok) ++sr.returned; else { ++sr.threw; rs = M (); }
+        Res<T> rr; putM (rr, rs);
+        if (u.kind != 0 || !sameBits (rr, u))
+            failLine (p + "gjInverse()/replay(pivot-search-reach-of-the-lattices)", TN<T>::n (), "the harness's replay of the Gauss-Jordan statements no longer reproduces gjInverse () bit for bit: the reach labels are void",
+                      hexOf (in), "self:gj-replay", cls);
+    }
+    {
+        long long d = 0;
+        bool known = intDet<T, M, N> (m, d);
+        intDetCheck<T> (p + "gjInverse(true)/gjInverse()", false, known, d, cT.kind, in, cls);
+        if (known && d == 0 && cT.kind == 0) ++stats[p + "gjInverse(true)/gjInverse()"].cls["exact-integer-determinant-0-but-numerically-undetected(returned; allowed)"];
+    }
     Res<T> id; putM (id, M ());
     const bool notId = !(m == M ());
     check<T> (p + "gjInverse(true)/gjInverse()", 2, cT, u, 2, sameBits (u, id) && notId, in, cls);
@@ -845,7 +1002,11 @@ template <class T> static Matrix33<T> algoInput33 (const char*& cls)
 }
 // Which checkForZeroScaleInRow call of extractAndRemoveScalingAndShear fails FIRST for this input (audit W4: every call site must be
 // reached, because a call site that loses its `exc` argument throws there, and only there, with exc = false).  The steps of the real
-// function are replayed in the same element type with the real Vec operations and the real guard (exc = false).
+// function are replayed in the same element type with the real Vec operations and an INDEPENDENT copy of the guard (rowOk); the label is
+// cross-checked against the outcome of every pair (key self:site-label): a replay that drifted from the source cannot pass silently.
+// the guard of checkForZeroScaleInRow recomputed independently (the `>=` predicate with the real max (), as in the pair of that function)
+template <class T> static bool rowOk (T scl, const Vec3<T>& r) { return !(gGe (r.x, scl) || gGe (r.y, scl) || gGe (r.z, scl)); }
+template <class T> static bool rowOk (T scl, const Vec2<T>& r) { return !(gGe (r.x, scl) || gGe (r.y, scl)); }
 template <class T> static const char* algoSite44 (const Matrix44<T>& mat)
 {
     Vec3<T> row[3];
@@ -853,21 +1014,21 @@ template <class T> static const char* algoSite44 (const Matrix44<T>& mat)
     T maxVal = 0;
     for (int i = 0; i < 3; i++) for (int j = 0; j < 3; j++) if (IMATH_INTERNAL_NAMESPACE::abs (row[i][j]) > maxVal) maxVal = IMATH_INTERNAL_NAMESPACE::abs (row[i][j]);
     if (maxVal != 0)
-        for (int i = 0; i < 3; i++) { if (!checkForZeroScaleInRow (maxVal, row[i], false)) return "site=maxVal"; row[i] /= maxVal; }
+        for (int i = 0; i < 3; i++) { if (!rowOk (maxVal, row[i])) return "site=maxVal"; row[i] /= maxVal; }
     T sx = row[0].length ();
-    if (!checkForZeroScaleInRow (sx, row[0], false)) return "site=scl.x";
+    if (!rowOk (sx, row[0])) return "site=scl.x";
     row[0] /= sx;
     T sh0 = row[0].dot (row[1]);
     row[1] -= sh0 * row[0];
     T sy = row[1].length ();
-    if (!checkForZeroScaleInRow (sy, row[1], false)) return "site=scl.y";
+    if (!rowOk (sy, row[1])) return "site=scl.y";
     row[1] /= sy;
     T sh1 = row[0].dot (row[2]);
     row[2] -= sh1 * row[0];
     T sh2 = row[1].dot (row[2]);
     row[2] -= sh2 * row[1];
     T sz = row[2].length ();
-    if (!checkForZeroScaleInRow (sz, row[2], false)) return "site=scl.z";
+    if (!rowOk (sz, row[2])) return "site=scl.z";
     return "site=none";
 }
 template <class T> static const char* algoSite33 (const Matrix33<T>& mat)
@@ -877,14 +1038,14 @@ template <class T> static const char* algoSite33 (const Matrix33<T>& mat)
     T maxVal = 0;
     for (int i = 0; i < 2; i++) for (int j = 0; j < 2; j++) if (IMATH_INTERNAL_NAMESPACE::abs (mat[i][j]) > maxVal) maxVal = IMATH_INTERNAL_NAMESPACE::abs (mat[i][j]);
     if (maxVal != 0)
-        for (int i = 0; i < 2; i++) { if (!checkForZeroScaleInRow (maxVal, row[i], false)) return "site=maxVal"; row[i] /= maxVal; }
+        for (int i = 0; i < 2; i++) { if (!rowOk (maxVal, row[i])) return "site=maxVal"; row[i] /= maxVal; }
     T sx = row[0].length ();
-    if (!checkForZeroScaleInRow (sx, row[0], false)) return "site=scl.x";
+    if (!rowOk (sx, row[0])) return "site=scl.x";
     row[0] /= sx;
     T sh = row[0].dot (row[1]);
     row[1] -= sh * row[0];
     T sy = row[1].length ();
-    if (!checkForZeroScaleInRow (sy, row[1], false)) return "site=scl.y";
+    if (!rowOk (sy, row[1])) return "site=scl.y";
     return "site=none";
 }
 
@@ -914,9 +1075,17 @@ template <class T> static void algoPairs ()
         if (f2 != (gGe (row.x, scl) || gGe (row.y, scl))) failLine ("Algo.checkForZeroScaleInRow(Vec2)", TN<T>::n (), "false is not equivalent to the >= guard", hexOf (in), "false-vs-guard", cls);
     }
     // generic runner for a bool-returning function with outputs: body(exc, Res) pushes the flag into .i and the outputs into .v
+    auto siteCheck = [&] (const std::string& name, const std::vector<T>& in, const char* cls, int kind) {
+        if (!cls || !strstr (cls, "site=")) return;
+        bool none = strstr (cls, "site=none") != nullptr;
+        if ((kind != 0) == none)
+            failLine (name, TN<T>::n (), none ? "the replayed Gram-Schmidt steps say no call site fails, but the checked member threw"
+                                              : "the replayed Gram-Schmidt steps name a failing call site, but the checked member returned", hexOf (in), "self:site-label", cls);
+    };
     auto boolPair = [&] (const std::string& name, const std::vector<T>& in, const char* cls, std::function<void (bool, Res<T>&)> body) {
         auto c = run<T> ([&] (Res<T>& q) { body (true, q); });
         auto u = run<T> ([&] (Res<T>& q) { body (false, q); });
+        siteCheck (name, in, cls, c.kind);
         bool uf = u.kind == 0 && u.i.size () >= 1 && u.i[0] == 0;
         if (c.kind != 0) { u.v.clear (); u.i.clear (); }
         else if (uf) { /* outputs are documented invalid on failure; the flag mismatch is reported by check */ }
@@ -925,6 +1094,7 @@ template <class T> static void algoPairs ()
     auto matPair = [&] (const std::string& name, const std::vector<T>& in, const char* cls, const Res<T>& input, std::function<void (bool, Res<T>&)> body) {
         auto c = run<T> ([&] (Res<T>& q) { body (true, q); });
         auto u = run<T> ([&] (Res<T>& q) { body (false, q); });
+        siteCheck (name, in, cls, c.kind);
         bool uf = sameBits (u, input);
         if (c.kind != 0) { Res<T> e; check<T> (name, 1, c, e, 1, uf, in, cls); }
         else check<T> (name, 1, c, u, 0, false, in, cls);
@@ -997,6 +1167,10 @@ int main (int argc, char** argv)
     {
         gjLattice<float> ();
         gjLattice<double> ();
+        gjMagnitudeLattice<float, Matrix33<float>, 3> ("M33");
+        gjMagnitudeLattice<double, Matrix33<double>, 3> ("M33");
+        gjMagnitudeLattice<float, Matrix44<float>, 4> ("M44");
+        gjMagnitudeLattice<double, Matrix44<double>, 4> ("M44");
     }
     long evals = 0;
     for (auto& kv : stats)
